@@ -38,7 +38,10 @@ func (d mdiag) String() string {
 
 // expectedDiags computes the model's diagnostics for one file and the byte
 // ranges (skip) within which nothing is claimed.
-func expectedDiags(schema *world.BodySpec, f *h.FileState) (want []mdiag, skip []world.Span) {
+// bodySkip holds the same sub-trees narrowed to their bodies: a body-level
+// diagnostic of the enclosing body may start at the very byte a skipped block
+// starts at (a file beginning with such a block), and is not inside it.
+func expectedDiags(schema *world.BodySpec, f *h.FileState) (want []mdiag, skip, bodySkip []world.Span) {
 	r := f.Rendered
 	node := func(id int) *world.Node {
 		if id > 0 && id < len(r.Nodes) {
@@ -52,6 +55,7 @@ func expectedDiags(schema *world.BodySpec, f *h.FileState) (want []mdiag, skip [
 			if p.Eff != nil && p.Eff.Uncertain {
 				if n := node(p.NodeID); n != nil {
 					skip = append(skip, n.Range)
+					bodySkip = append(bodySkip, world.Span{Start: n.Open.Start, End: n.Close.End})
 				}
 				return
 			}
@@ -63,6 +67,7 @@ func expectedDiags(schema *world.BodySpec, f *h.FileState) (want []mdiag, skip [
 			// the content of a dynamic block is not modelled
 			if n := node(c.NodeID); n != nil {
 				skip = append(skip, world.Span{Start: n.Open.Start, End: n.Close.End})
+				bodySkip = append(bodySkip, world.Span{Start: n.Open.Start, End: n.Close.End})
 			}
 			return
 		}
@@ -149,7 +154,7 @@ func expectedDiags(schema *world.BodySpec, f *h.FileState) (want []mdiag, skip [
 			}
 		}
 	})
-	return want, skip
+	return want, skip, bodySkip
 }
 
 func diagKey(d *hcl.Diagnostic, bodyLevel bool) mdiag {
@@ -185,9 +190,17 @@ func bodyStartOf(r *world.Rendered, off int) int {
 	return best
 }
 
-func compareDiags(r *world.Rendered, got hcl.Diagnostics, want []mdiag, skip []world.Span) string {
+func compareDiags(r *world.Rendered, got hcl.Diagnostics, want []mdiag, skip, bodySkip []world.Span) string {
 	inSkip := func(off int) bool {
 		for _, s := range skip {
+			if off >= s.Start && off < s.End {
+				return true
+			}
+		}
+		return false
+	}
+	inBodySkip := func(off int) bool {
+		for _, s := range bodySkip {
 			if off >= s.Start && off < s.End {
 				return true
 			}
@@ -197,7 +210,11 @@ func compareDiags(r *world.Rendered, got hcl.Diagnostics, want []mdiag, skip []w
 	var g, w []string
 	for _, d := range got {
 		k := diagKey(d, false)
-		if k.start >= 0 && inSkip(k.start) {
+		if isBodyLevel(k.summary) {
+			if k.start >= 0 && inBodySkip(k.start) {
+				continue
+			}
+		} else if k.start >= 0 && inSkip(k.start) {
 			continue
 		}
 		if isBodyLevel(k.summary) {
@@ -251,7 +268,7 @@ func (o *C15) Check(x *h.Exec, ev *h.Event) {
 				continue
 			}
 			okFiles++
-			want, skip := expectedDiags(p.Spec.Schema, f)
+			want, skip, bskip := expectedDiags(p.Spec.Schema, f)
 			salt++
 			q := h.Query{Kind: "validate_file", Path: pi, File: f.Name, Order: orderFor(c, salt)}
 			r := x.Run(q)
@@ -264,7 +281,7 @@ func (o *C15) Check(x *h.Exec, ev *h.Event) {
 				x.Cov.Probe("files_with_expected_diagnostics")
 			}
 			x.Sample(3, "%s: %d diagnostics expected by the model, %d reported, %d skipped ranges", f.Name, len(want), len(got), len(skip))
-			if d := compareDiags(f.Rendered, got, want, skip); d != "" {
+			if d := compareDiags(f.Rendered, got, want, skip, bskip); d != "" {
 				shape := "extra"
 				if strings.Contains(d, "expected but not reported: [1") || strings.Contains(d, "expected but not reported: [2") {
 					shape = "missing"
@@ -277,12 +294,12 @@ func (o *C15) Check(x *h.Exec, ev *h.Event) {
 			q2 := h.Query{Kind: "validate", Path: pi, Order: orderFor(c, salt)}
 			r2 := x.Run(q2)
 			if m, ok := r2.Val.(map[string]hcl.Diagnostics); ok {
-				if d := compareDiags(f.Rendered, m[f.Name], want, skip); d != "" {
+				if d := compareDiags(f.Rendered, m[f.Name], want, skip, bskip); d != "" {
 					x.Report("diagnostics", "validate", "path", fmt.Sprintf("%s (Validate): %s", f.Name, d), &q2)
 					return
 				}
 			} else if dm, ok := asDiagMap(r2.Val); ok {
-				if d := compareDiags(f.Rendered, dm[f.Name], want, skip); d != "" {
+				if d := compareDiags(f.Rendered, dm[f.Name], want, skip, bskip); d != "" {
 					x.Report("diagnostics", "validate", "path", fmt.Sprintf("%s (Validate): %s", f.Name, d), &q2)
 					return
 				}
